@@ -156,6 +156,14 @@ def hash_shard(config, seed, n_examples, import_ctx="top"):
     stats.case({"config": config, "part": "coefficient", "range": [lo, lo + ncoef]}, True, ("ggh-coefficients",))
     stats.extra["ggh_coefficients_compared"] = stats.extra.get("ggh_coefficients_compared", 0) + ncoef + 600
     counts = {}
+    kept = []       # (description, result list kept by the caller, reference values): later calls must not change earlier results
+
+    def check_kept(case):
+        for what, out, want, earlier in kept[:-1]:
+            if [x.value % p for x in out] != want:
+                fail({"config": config, "part": "sequence", "calls": [earlier, case]},
+                     "the result of an earlier call (%s) changed after a later call of the gadget" % what, "result-overwritten")
+        del kept[:-3]
 
     def elems():
         return st.one_of(st.sampled_from([0, 1, 2, p - 1, p - 2, 1 << 128, (1 << 200) + 5, p // 2]), st.integers(0, p - 1), st.integers(0, 1 << 64))
@@ -197,6 +205,8 @@ def hash_shard(config, seed, n_examples, import_ctx="top"):
             for x, w in zip(out, want):
                 if r1cs.lc_value(x.lc.d, rec.vals, p) != w:
                     fail(case, "permutation output wire does not evaluate to the reference value", "permute")
+            kept.append(("permute of %r" % (state,), out, want, case))
+            check_kept(case)
             counts.setdefault(("permute", 5), set()).add(len(rec.cons))
             if len(counts[("permute", 5)]) > 1:
                 fail(case, "number of constraints of a permutation depends on the input values: %r" % sorted(counts[("permute", 5)]), "count")
@@ -241,6 +251,8 @@ def hash_shard(config, seed, n_examples, import_ctx="top"):
         for x, w in zip(out, want):
             if r1cs.lc_value(x.lc.d, rec.vals, p) != w:
                 fail(case, "hash output wire does not evaluate to the reference value", "hash")
+        kept.append(("hash of %r" % (vals,), out, want, case))
+        check_kept(case)
         counts.setdefault(("hash", n), set()).add(len(rec.cons) - c0)
         if len(counts[("hash", n)]) > 1:
             fail(case, "number of constraints for %d inputs depends on the values: %r" % (n, sorted(counts[("hash", n)])), "count")
@@ -295,7 +307,7 @@ def selection_case(cfg):
     if cfg["load"]["libsnark"]:
         paths.append(os.path.join(backends.SHIMS, "libsnark_stub"))
     envv = {k: v for k, v in os.environ.items() if k not in ("PYSNARK_BACKEND", "QAPTOOLS_BIN", "PYTHONPATH")}
-    envv.update({"PYTHONPATH": os.pathsep.join(paths) + core.COVPATH, "PYTHONDONTWRITEBYTECODE": "1", "PYTHONHASHSEED": "0",
+    envv.update({"PYTHONPATH": os.pathsep.join(paths) + core.COVPATH, "PYTHONDONTWRITEBYTECODE": "1", "PYTHONHASHSEED": core.hashseed_for(cfg),
                  "QAPTOOLS_BIN": os.path.join(backends.SHIMS, "qapbin") if cfg["load"]["qaptools"] else "/nonexistent-qaptools-dir"})
     if cfg["env"] is not None:
         envv["PYSNARK_BACKEND"] = cfg["env"]
@@ -349,8 +361,53 @@ def replay(case):
                     core.ROOT, os.environ.get("VERIF_REPO", "/repo"), case["config"], case["config"], case["index"], case["index"]))
         r = subprocess.run([sys.executable, "-c", code])
         return None if r.returncode == 0 else "subset-sum coefficient #%d differs from the documented derivation" % case["index"]
-    st_ = hash_shard(case["config"], 1, 1)     # vectors only; value cases are replayed through the reference directly
+    if case.get("part") in ("hash", "permute", "sequence"):
+        # a fresh interpreter (the hash modules bind to the backend at import): the recorded calls in order, every result
+        # compared with the reference after ALL calls were made
+        import subprocess, sys
+        code = ("import sys, json; sys.path[:0]=[%r,%r]; from harness.checks import c20; "
+                "m = c20.replay_inproc(json.loads(sys.stdin.read())); print('REPLAY-RESULT ' + json.dumps(m))" % (
+                    core.ROOT, os.environ.get("VERIF_REPO", "/repo")))
+        r = subprocess.run([sys.executable] + (["-O"] if case.get("python_optimise") else []) + ["-c", code], input=json.dumps(case),
+                           capture_output=True, text=True)
+        for ln in r.stdout.splitlines():
+            if ln.startswith("REPLAY-RESULT "):
+                return json.loads(ln[len("REPLAY-RESULT "):])
+        raise core.HarnessError("C20 replay child failed: %s" % r.stderr[-300:])
+    st_ = hash_shard(case["config"], 1, 1)     # vectors and coefficient prefix
     return "; ".join(v["msg"] for v in st_.violations) or None
+
+
+def replay_inproc(case):
+    from harness import env
+    config = case["config"]
+    p = backends.FIELDS[config]
+    recorder.P = p
+    ns = env.bind(CONFIG_MODULE[config])
+    rt = ns.rt
+    os.environ["PYSNARK_BACKEND"] = config
+    try:
+        import pysnark.poseidon_hash as ph
+    finally:
+        os.environ.pop("PYSNARK_BACKEND", None)
+    from pysnark.poseidon_constants import poseidon_constants
+    consts = poseidon_constants[config]
+    env.reset(p, 16, 8)
+    results = []
+    for c in (case["calls"] if case.get("part") == "sequence" else [case]):
+        if c["part"] == "permute":
+            out = ph.permute([rt.PrivVal(v) for v in c["state"]])
+            results.append(("permutation of %r" % (c["state"],), out, ref_permute(c["state"], consts, p)))
+        else:
+            ins = []
+            for k, v in zip(c["kinds"], c["msg"]):
+                ins.append(ns.bo.PrivValBool(v) if k == "B" else ns.fx.PrivValFxp(v, False) if k == "F" else rt.PrivVal(v))
+            out = ph.poseidon_hash(ins)
+            results.append(("hash of %r" % (c["msg"],), out, ref_hash(c["msg"], consts, p)))
+    for what, out, want in results:
+        if [x.value % p for x in out] != want:
+            return "%s differs from the plain reference%s" % (what, " once all calls were made" if len(results) > 1 else "")
+    return None
 
 
 def run(ctx):
